@@ -109,7 +109,7 @@ theorem walk_root_value (c : Ctx) (rec : Vtx â†’ CallSt â†’ Except RErr ArgMap Ã
       { s := { s with last := some x }, final := some x, prev := some (.value n tu su), err := none } := by
   simp only [List.foldl_cons, List.foldl_nil]
   rw [walkStep_root c rec rfl, walkStep_value c rec rfl]
-  simp only [copyFrom, hx, ite_self]
+  simp only [valCopy, hx, ite_self]
   rfl
 
 @[simp] theorem set_orc (s : CallSt) (v : Vtx) (x : Option PVal) : (s.set v x).orc = s.orc := by
